@@ -1,16 +1,30 @@
 /-
 C08 — Scan results depend only on content, not on enumeration order or root count.
+
+CONFIGURATION CLASS of the exact theorems here: `Benign c` (no inode limit, no cancellation, `ErrorOnFSErrors`
+off, extractors do not panic) with `GiOK c` (go-git's domain rule).  In the other classes a scan may stop early,
+and WHERE it stops depends on the listing order (the inode limit and a cancellation point are reached after a
+different prefix), so order independence is not claimed there; only `C08_cmp_order` / `C08_sorted` (every
+configuration) apply.  Narrowing hypotheses are listed in each docstring and carry the `_partial` suffix:
+`NoReadFaults` (a failing k-th directory read is itself position dependent — decided counterexample
+`C08_perm_needs_noReadFaults`), and for requested paths `DistinctNames` (a path is resolved to the FIRST entry of
+that name — decided counterexample `C08_perm_paths_needs_distinct`).
 -/
 import Scalibr.Proofs.WalkTop
 import Scalibr.Proofs.WalkMore
 import Scalibr.Proofs.WalkPerm
+import Scalibr.Proofs.WalkPermScan
+import Scalibr.Proofs.WalkOnce
 namespace Scalibr.Walk
 
 /-- `slices.SortFunc`'s precondition for `CmpPackages`: the four-key lexicographic comparison on byte
 strings is a strict total order (so also: keys that compare equal are equal). -/
 theorem C08_cmp_order : StrictTotal keyLt := keyLt_strictTotal
 
-/-- Packages, and plugin statuses, are emitted in the documented sorted order — always. -/
+/-- Packages, and plugin statuses, are emitted in the documented sorted order — always.  (The model's `scan`
+is DEFINED as the stable insertion sort of the results, so this restates that `isort` sorts; the property-relevant
+content is `C08_cmp_order` — the comparator is a strict total order on keys, which is what makes the sorted key
+sequence unique — together with the driver tie of `scan` to the implementation's output order.) -/
 theorem C08_sorted (nm : Naming) (c : Cfg) (roots : List (Node × Faults)) :
     ((scan nm c roots).pkgs.map nm.key).Pairwise (fun a b => keyLt b a = false) ∧
     ((scan nm c roots).statuses.map fun x => nm.extName x.1).Pairwise (fun a b => ltBytes b a = false) := by
@@ -36,8 +50,10 @@ theorem C08_perm_spec (c : Cfg) (f : Faults) (hf : NoReadFaults f) (above : List
     (mustFrom c f above p (permuteTree ρ p n)).Perm (mustFrom c f above p n) :=
   mustFrom_permute c f hf above ρ hρ p n
 
-/-- Whole scans of a tree and of any rearrangement of it (whole-tree scan, benign configuration):
-the packages are a permutation of each other, and the emitted, sorted key sequence is IDENTICAL. -/
+/-- Whole scans of a tree and of any rearrangement of it — the ONE-ROOT, whole-tree, packages-only special case
+kept for reference; the general statements are `C08_perm_scan_roots_partial` (several roots, each rearranged
+independently; also `err` and statuses) and `C08_perm_scan_paths_partial` (requested paths) below.
+The packages are a permutation of each other, and the emitted, sorted key sequence is IDENTICAL. -/
 theorem C08_perm_scan (nm : Naming) (c : Cfg) (hb : Benign c) (hp : c.paths = []) (f : Faults) (hf : NoReadFaults f)
     (root : Node) (ρ : Rearr) (hρ : ∀ p l, (ρ p l).Perm l)
     (ho : GiOK c) :
@@ -61,9 +77,44 @@ theorem C08_perm_scan (nm : Naming) (c : Cfg) (hb : Benign c) (hp : c.paths = []
   rw [isort_map keyLt nm.key, isort_map keyLt nm.key]
   exact keyLt_strictTotal.isort_perm_eq _ _ (hpk.map nm.key)
 
+/-- **Order independence, several roots** (class `Benign`; narrowing: whole-tree scan `paths = []`, `NoReadFaults`).
+`Rearranged roots' roots`: same number of roots, root by root the same fault plan and a tree that is SOME
+rearrangement (an arbitrary permutation of EVERY directory listing, chosen independently per root) of the
+other.  Then: both scans succeed; the inventories are permutations of each other; the per-root status lists are
+EQUAL; the emitted, sorted package-key sequence and the emitted status list of `scan` are EQUAL. -/
+theorem C08_perm_scan_roots_partial (nm : Naming) (c : Cfg) (hb : Benign c) (ho : GiOK c) (hp : c.paths = [])
+    (roots' roots : List (Node × Faults)) (h : Rearranged roots' roots) :
+    ((run c roots').err = .none ∧ (run c roots).err = .none) ∧
+    (run c roots').pkgs.Perm (run c roots).pkgs ∧
+    (run c roots').statuses = (run c roots).statuses ∧
+    (scan nm c roots').pkgs.map nm.key = (scan nm c roots).pkgs.map nm.key ∧
+    (scan nm c roots').statuses = (scan nm c roots).statuses :=
+  perm_scan_roots_rel nm c hb ho hp roots' roots h
+
+/-- **Order independence with requested paths** (`c.paths` arbitrary, the same set on both sides; class `Benign`;
+narrowing: `NoReadFaults` and `DistinctNames` for every tree — a requested path is resolved to the first entry
+of that name, so rearranging a listing with duplicate names changes which node is requested).  Same conclusions. -/
+theorem C08_perm_scan_paths_partial (nm : Naming) (c : Cfg) (hb : Benign c) (ho : GiOK c)
+    (roots' roots : List (Node × Faults)) (h : RearrangedDistinct roots' roots) :
+    ((run c roots').err = .none ∧ (run c roots).err = .none) ∧
+    (run c roots').pkgs.Perm (run c roots).pkgs ∧
+    (run c roots').statuses = (run c roots).statuses ∧
+    (scan nm c roots').pkgs.map nm.key = (scan nm c roots).pkgs.map nm.key ∧
+    (scan nm c roots').statuses = (scan nm c roots).statuses :=
+  perm_scan_paths_rel nm c hb ho roots' roots h
+
+/-- both narrowing hypotheses are needed (decided on concrete scans) -/
+theorem C08_perm_needs_noReadFaults :
+    ¬ (run pxCfg [(permuteTree pxRev [] pxT2, pxFault)]).pkgs.Perm (run pxCfg [(pxT2, pxFault)]).pkgs :=
+  perm_scan_needs_noReadFaults
+theorem C08_perm_paths_needs_distinct :
+    ¬ (run pxCfgA [(permuteTree pxRev [] pxDup, {})]).pkgs.Perm (run pxCfgA [(pxDup, {})]).pkgs :=
+  perm_scan_paths_needs_distinct
+
 /-- Scanning several roots yields exactly the concatenation of scanning each root alone (inventory and
-statuses), so no package is reported twice. (Before fix 88fdbb3a every earlier root's packages were
-reported again for each later root.) -/
+statuses) — of the engine result `run`; the emitted `scan` is its stable sort — so a later root never repeats an
+earlier root's packages. (Before fix 88fdbb3a every earlier root's packages were reported again for each later
+root.)  "No package is reported twice" as such is `C08_no_dup` below. -/
 theorem C08_roots (c : Cfg) (hb : Benign c) (roots : List (Node × Faults)) (ho : GiOK c) :
     (run c roots).pkgs = roots.flatMap (fun rf => (run c [rf]).pkgs) ∧
     (run c roots).statuses = roots.flatMap (fun rf => (run c [rf]).statuses) := by
@@ -85,5 +136,32 @@ theorem C08_roots (c : Cfg) (hb : Benign c) (roots : List (Node × Faults)) (ho 
 example : ∀ (p : Path) (l : List (String × Node)), ((fun _ l => l.reverse : Rearr) p l).Perm l :=
   fun _ l => List.reverse_perm l
 example : NoReadFaults {} := fun _ _ => rfl
+
+/-- **No package is reported twice unless two `Extract` results contain it** (class `Benign`; narrowing: one
+root, whole-tree scan, `DistinctNames`): if no single `Extract` result lists a package twice, the inventory —
+whose entries are (package, extractor, file) — lists none twice.  With several roots (or a path requested twice)
+the same relative path is extracted once per root and its packages appear once per root: that is "two `Extract`
+results contain it", and `C08_roots` says exactly which. -/
+theorem C08_no_dup (c : Cfg) (hb : Benign c) (ho : GiOK c) (hp : c.paths = []) (root : Node) (f : Faults)
+    (h : DistinctNames root) (hx : ∀ e p, (c.extract e p).pkgs.Nodup) : (run c [(root, f)]).pkgs.Nodup :=
+  run_pkgs_nodup c hb ho hp root f h hx
+
+/-- … and in general (any log of attempts): no (extractor, file) pair invoked twice + no `Extract` result listing
+a package twice ⇒ no package listed twice. -/
+theorem C08_no_dup_calls (c : Cfg) (hx : ∀ e p, (c.extract e p).pkgs.Nodup) (cs : List Call)
+    (h : ((cs.filter (·.opened)).map callKey).Nodup) : (pkgsOfCalls c cs).Nodup :=
+  pkgsOfCalls_nodup c hx cs h
+
+/-! Non-vacuity of the several-roots theorems: the two-root forest `pxForest` of Proofs/WalkPermScan.lean (first root:
+every listing reversed; second root: only the top listing reversed; gitignore handling on, two extractors). -/
+example : Rearranged pxForest.rearranged pxForest.orig :=
+  .cons pxRev pxRev_perm (fun _ _ => rfl) (.cons pxTop pxTop_perm (fun _ _ => rfl) .nil)
+example : RearrangedDistinct pxForest.rearranged pxForest.orig :=
+  .cons pxRev pxRev_perm (fun _ _ => rfl) (by simp [pxT1, DistinctNames, DistinctNamesL])
+    (.cons pxTop pxTop_perm (fun _ _ => rfl) (by simp [pxT2, DistinctNames, DistinctNamesL]) .nil)
+/-- `C08_roots` on two roots: the inventory of the two-root scan is the first root's followed by the second root's -/
+example : (run pxCfg pxForest.orig).pkgs = (run pxCfg [(pxT1, {})]).pkgs ++ (run pxCfg [(pxT2, {})]).pkgs := by
+  have := (C08_roots pxCfg pxCfg_benign pxForest.orig pxCfg_giOK).1
+  simpa [RForest.orig, pxForest] using this
 
 end Scalibr.Walk
